@@ -2462,6 +2462,15 @@ public:
     return visitor.getFlag();
   }
 
+  /// Return true if evaluating an actual may make calls or use stack
+  /// temporaries, in which case it must be evaluated before any outgoing
+  /// parameter slot is written.
+  bool needsTemporary(const std::unique_ptr<Expr> &expr) {
+    return !(expr->isConst() ||
+             dynamic_cast<StringExpr*>(expr.get()) ||
+             dynamic_cast<VarRefExpr*>(expr.get()));
+  }
+
   /// Code generation ------------------------------------------------------///
 
   /// Generate a constant pool entry if required, return the label to it.
@@ -2551,7 +2560,7 @@ public:
                       const std::string &currentScope) {
     size_t stackOffset = currentFrame->getOffset();
     for (auto &arg : args) {
-      if (containsCall(arg)) {
+      if (needsTemporary(arg)) {
         // For each actual expression containing one or more calls, allocate a
         // stack word (FB relative) for the result of that call since it cannot
         // be written directly into the parameter slots until all calls have
@@ -2571,7 +2580,7 @@ public:
                    const std::string &currentScope) {
     size_t parameterIndex = parameterOffset;
     for (auto &arg : args) {
-      if (containsCall(arg)) {
+      if (needsTemporary(arg)) {
         // For each actual expression containing one or more calls, load the
         // expression value saved to a temporary stack location and store it
         // to the actual parameter location.
